@@ -63,9 +63,9 @@ def expansion(v):
 def expected_N(s):
     v = value(s)
     st, k = expansion(v)
-    dot_noexp = "." in s and not re.search("[eE]", s)
-    isint = (not dot_noexp) and k == 0
-    isfloat = dot_noexp or k > 0
+    # the statement: "whether it counts as integer ... depends only on its normalised decimal expansion"
+    isint = k == 0
+    isfloat = k > 0
     return "%s|%d|%s%s" % (st, k, "T" if isint else "F", "T" if isfloat else "F")
 
 
@@ -158,6 +158,15 @@ def run_lines(ctx, lines, expected, label, what_of):
     return nbad
 
 
+def classifier_integer_by_spelling(case):
+    """the known-finding class C10-integer-by-spelling: an N case on a numeral with a dot, no exponent and an integer value (1.0, -0.0, 10.00)"""
+    toks = case.split(" ")
+    if toks[0] != "N" or not RFC.match(toks[1]):
+        return False
+    s = toks[1]
+    return "." in s and not re.search("[eE]", s) and expansion(value(s))[1] == 0
+
+
 def classifier_zero_int_exp(case):
     toks = case.split(" ")
     if toks[0] == "N":
@@ -178,6 +187,7 @@ def api_expected(kind, b, v):
 def run(ctx):
     st = vc.prepare(ctx)
     ctx.classifiers["zero_int_then_exp"] = classifier_zero_int_exp
+    ctx.classifiers["integer_by_spelling"] = classifier_integer_by_spelling
     ctx.extra["rule"] = ("N: every string over {-,0,1,5,9,.,e,E,+} up to length L1 (model vs library, incl. rejected strings) and every RFC numeral "
                          "up to length L2 against exact rational arithmetic (python Fraction): normalised expansion, fractional length, integer/float class; "
                          "C: all ordered pairs of numerals up to length L3 and random 60-digit/|exp|<=400 numerals paired with re-spellings and 1-ulp neighbours; "
@@ -294,6 +304,7 @@ def replay(ctx, path):
     r = json.load(open(path))
     vc.prepare(ctx)
     ctx.classifiers["zero_int_then_exp"] = classifier_zero_int_exp
+    ctx.classifiers["integer_by_spelling"] = classifier_integer_by_spelling
     l = r.get("case")
     if not l:
         return run(ctx)
